@@ -1086,8 +1086,39 @@ class Models:
             return self.smart_ptr_method(st, e.load(st, obj), name, n, fr, lv=obj)
         h = getattr(self, 'm_%s_%s' % (k, name.replace('operator[]', 'index').replace('operator*', 'deref').replace('operator->', 'arrow').replace('operator bool', 'bool').replace('operator=', 'assign').replace('operator()', 'call')), None)
         if h is None:
+            if isinstance(obj, ObjLV) and k in ('vector', 'set', 'map') and e.specs is not None and getattr(e.specs, 'default_havoc', None):
+                # a container operation the executor has no model for (typically brought in by restructured code): sound fallback -
+                # the container may end up in any state, the result is an arbitrary value of its type. Postconditions that depend on
+                # the container can then no longer be proved, which is reported against the named obligation instead of stopping here.
+                for a_ in args:
+                    try: e.ev(a_, st, fr)
+                    except Unsupported: pass
+                self.havoc_container(st, obj)
+                self.used('unmodelled %s::%s: arbitrary effect on that container, arbitrary result' % (k, name))
+                return self.opaque_result(n, '%s.%s' % (k, name))
             raise Unsupported('no model for %s::%s at %s' % (k, name, e.where(n, fr)))
         return h(st, obj, bt, args, n, fr)
+
+    def havoc_container(self, st, obj):
+        e = self.e
+        t = obj.ty
+        if t.kind == 'vector':
+            ln = e.fresh('vec.len!unknown_op', I); st.pc.append(ln >= 0)
+            e.hwrite(st, 'vec.len', obj.ref, ln)
+            self.bump_epoch(st, obj.ref)
+            ety = t.args[0]
+            if e.is_value_type(ety):
+                keys = [e.vec_data_key(ety)] if ety.is_scalar() else [e.vec_data_key(ety, p_) for p_, lt in e.leaves(ety)]
+                for key in keys:
+                    arr = e.harr(st, key, None)
+                    st.heap[key] = z3.Store(arr, obj.ref, e.fresh(key + '!unknown_op', arr.sort().range()))
+            else:
+                raise Unsupported('unmodelled operation on a vector of objects')
+            return
+        arr = e.harr(st, 'sset.member', z3.ArraySort(I, z3.ArraySort(I, B)))
+        st.heap['sset.member'] = z3.Store(arr, obj.ref, e.fresh('sset.member!unknown_op', z3.ArraySort(I, B)))
+        sz = e.fresh('set.size!unknown_op', I); st.pc.append(sz >= 0)
+        e.hwrite(st, 'set.size', obj.ref, sz)
 
     def smart_ptr_method(self, st, p, name, n, fr, lv=None):
         if name == 'get': return p
